@@ -48,6 +48,7 @@ MINIMUMS = {  # (tag_edits_on_transformed_copy added with the round-2 seeds)
 
 FNS = [kinds.node, kinds.node2, kinds.two, kinds.three, kinds.Base, kinds.Mid, kinds.target3,
        kinds.tagged_fn, kinds.tagged_pos_fn, kinds.DCTagged, kinds.posnode, kinds.PosInit,
+       kinds.NewTaggedOverInit,
        sigs.g_a1_b2_va_k_vk, sigs.g_ab_c_va] + kinds.TAGGED_BLOCKS + [strann.str_tagged, strann.str_tagged_pos]
 LEAVES = [0, 1, 'a', None, True, (1, 2), 2.5, kinds.Color.RED, kinds.two]
 
@@ -78,7 +79,21 @@ def annotation_tags(fn):
   """{storage key: set of tags} written in the annotations of fn - read independently of fiddle."""
   import typing
   try:
-    target = fn.__init__ if isinstance(fn, type) and not dataclasses.is_dataclass(fn) else fn
+    target = fn
+    if isinstance(fn, type) and not dataclasses.is_dataclass(fn):
+      # what constructs instances: the first user-defined __new__ / __init__ along the MRO
+      # (the rule of inspect.signature)
+      target = fn.__init__
+      for base in fn.__mro__:
+        if base is object:
+          break
+        if '__new__' in base.__dict__:
+          target = base.__dict__['__new__']
+          target = getattr(target, '__func__', target)
+          break
+        if '__init__' in base.__dict__:
+          target = base.__dict__['__init__']
+          break
     hints = typing.get_type_hints(target, include_extras=True)
     params = list(inspect.signature(fn).parameters.values())
   except Exception:  # pylint: disable=broad-except
